@@ -275,7 +275,7 @@ func runC15(c *Ctx) []Obligation {
 			Assume: []Lit{T(`^\(types\.Coins\)\.SafeSub\(invoke x/auth\.Account\.GetCoins\(.*\), \(x/auth/types\.StdTx\)\.GetFee\(tx\)\)#1$`)},
 			Target: Success(), Why: "and the transaction is rejected"},
 		{Prop: P, ID: "DeductFees.must-send", Fn: fnDeduct,
-			Barrier: []string{`^\(x/auth/keeper\.Keeper\)\.SendCoinsFromAccountToModule\([^,]+, ctx, invoke x/auth\.Account\.GetAddress\([^)]*\), "fee_collector", \(x/auth/types\.StdTx\)\.GetFee\(tx\)\)$`},
+			Barrier: []string{`^\(x/auth/keeper\.Keeper\)\.SendCoinsFromAccountToModule\([^,]+, ctx, invoke x/auth\.Account\.GetAddress\(.*\), "fee_collector", \(x/auth/types\.StdTx\)\.GetFee\(tx\)\)$`},
 			Target:  Success(), Why: "every successful return moved exactly tx.GetFee() from the signer's account to the fee collector"},
 		{Prop: P, ID: "DeductFees.send-error", Fn: fnDeduct,
 			Assume: []Lit{T(`^nonnil\(\(x/auth/keeper\.Keeper\)\.SendCoinsFromAccountToModule\(`)},
